@@ -17,21 +17,38 @@
 
 #include <tlx/counting_ptr.hpp>
 
+// Every node is an Item (derived); the member `next` is a CountingPtr<Item>.  Outer handle v is a CountingPtr<Node> (base
+// class) when v is even and a CountingPtr<Item> when v is odd, so that CP / FN / MN into an even variable run the
+// CONVERTING copy- / move-assignment (CountingPtr<Subclass, Deleter> const& / &&) and into an odd one the plain overloads.
+// The generator respects the C++ typing: a base handle is never the source of CP into a derived one or of LK.
 struct Node;
+struct Item;
 static std::vector<int> g_dtor;
 static std::vector<Node*> g_addr;
 static std::set<const Node*> g_live;
 
 struct Node : public tlx::ReferenceCounter {
     int id;
-    tlx::CountingPtr<Node> next;
+    tlx::CountingPtr<Item> next;
     Node() : id(static_cast<int>(g_dtor.size())) { g_dtor.push_back(0); g_addr.push_back(this); g_live.insert(this); }
     Node(const Node&) = delete;
-    ~Node() { ++g_dtor[id]; g_live.erase(this); }
+    virtual ~Node() { ++g_dtor[id]; g_live.erase(this); }
 };
-using P = tlx::CountingPtr<Node>;
+struct Item : public Node {};
+using PB = tlx::CountingPtr<Node>;
+using PD = tlx::CountingPtr<Item>;
 
-static std::string observe(std::vector<P>& v, std::string& pbad) {
+// an outer handle of either static type
+struct H {
+    bool base; PB b; PD d;
+    const Node* get() const { return base ? b.get() : d.get(); }
+    size_t use_count() const { return base ? b.use_count() : d.use_count(); }
+    explicit operator bool() const { return get() != nullptr; }
+    void reset() { if (base) b.reset(); else d.reset(); }
+    tlx::CountingPtr<Item>& next() { return base ? b->next : d->next; }
+};
+
+static std::string observe(std::vector<H>& v, std::string& pbad) {
     std::ostringstream o;
     std::vector<int> handles(g_dtor.size(), 0);
     auto bad = [&](const char* m) { if (pbad.empty()) pbad = m; };
@@ -65,7 +82,9 @@ static void run_list(std::istringstream& in) {
     g_dtor.clear(); g_addr.clear(); g_live.clear();
     std::ostringstream out; std::string verdict;
     {
-        std::vector<P> v(static_cast<size_t>(k));
+        std::vector<H> v(static_cast<size_t>(k));
+        for (int i = 0; i < k; ++i) v[i].base = (i % 2 == 0);
+        std::string illtyped;
         std::string tok; int stepno = 0;
         while (in >> tok) {
             std::vector<long> f; std::string name; size_t p = 0; bool first = true;
@@ -82,12 +101,17 @@ static void run_list(std::istringstream& in) {
             if (ok && name == "LK") ok = static_cast<bool>(v[f[0]]);
             if (ok && (name == "FN" || name == "MN")) ok = static_cast<bool>(v[f[1]]);
             if (!ok) { out << "skip "; continue; }
-            if (name == "NN") v[f[0]] = P(new Node());
-            else if (name == "CP") { P& o = v[f[1]]; v[f[0]] = o; }
-            else if (name == "RS") v[f[0]].reset();
-            else if (name == "LK") { P& o = v[f[1]]; v[f[0]]->next = o; }
-            else if (name == "FN") v[f[0]] = v[f[1]]->next;
-            else if (name == "MN") v[f[0]] = std::move(v[f[1]]->next);
+            H& a = v[f[0]];
+            if (name == "NN") { if (a.base) a.b = PB(new Item()); else a.d = PD(new Item()); }
+            else if (name == "CP") {
+                H& o = v[f[1]];
+                if (a.base && o.base) { PB& r = o.b; a.b = r; } else if (a.base) a.b = o.d;            // converting copy-assignment
+                else if (!o.base) { PD& r = o.d; a.d = r; } else { illtyped = tok; out << "skip "; continue; }
+            }
+            else if (name == "RS") a.reset();
+            else if (name == "LK") { H& o = v[f[1]]; if (o.base) { illtyped = tok; out << "skip "; continue; } a.next() = o.d; }
+            else if (name == "FN") { if (a.base) a.b = v[f[1]].next(); else a.d = v[f[1]].next(); }        // even target: converting copy-assignment
+            else if (name == "MN") { if (a.base) a.b = std::move(v[f[1]].next()); else a.d = std::move(v[f[1]].next()); }   // even target: converting move-assignment
             else { out << "skip "; continue; }
             std::string pbad;
             out << observe(v, pbad) << ' ';
@@ -98,6 +122,7 @@ static void run_list(std::istringstream& in) {
         out << "F:" << observe(v, pbad);
         if (!pbad.empty() && verdict.empty()) verdict = "bad@final:" + pbad;
         if (!g_live.empty() && verdict.empty()) verdict = "bad@final:leaked nodes";
+        if (!illtyped.empty()) out << " ILLTYPED(" << illtyped << ")";
     }
     out << " P=" << (verdict.empty() ? "ok" : verdict);
     std::cout << out.str() << "\n" << std::flush;
